@@ -85,4 +85,56 @@ theorem underived_helper_kept (derived : List Kind) (attrs : List Attr) (w : Cmp
   · simp
   · simp [hn t ho]
 
+/-! ### foreign attributes are invisible to the generator
+
+Everything the expander reads from an attribute list — the `derive_ex` lists, the helper attributes — is the same with
+and without the foreign attributes in it, wherever they stand; and they are all kept (`foreign_kept`). -/
+
+def Attr.isForeign : Attr → Bool
+  | .foreign _ => true
+  | _ => false
+
+@[simp] theorem isForeign_foreign (ts : Toks) : (Attr.foreign ts).isForeign = true := rfl
+@[simp] theorem isForeign_deriveEx (a : Args) : (Attr.deriveEx a).isForeign = false := rfl
+@[simp] theorem isForeign_cmp (w : CmpAttr) (b : HBody CmpArgs) : (Attr.cmp w b).isForeign = false := rfl
+@[simp] theorem isForeign_debug (b : HBody DebugArgs) : (Attr.debug b).isForeign = false := rfl
+@[simp] theorem isForeign_dflt (b : HBody DefaultArgs) : (Attr.dflt b).isForeign = false := rfl
+
+def dropForeign (attrs : List Attr) : List Attr := attrs.filter (!·.isForeign)
+
+theorem deriveExArgs_foreign (attrs : List Attr) : deriveExArgs (dropForeign attrs) = deriveExArgs attrs := by
+  unfold deriveExArgs dropForeign
+  induction attrs with
+  | nil => rfl
+  | cons a as ih => cases a <;> simp [List.filter_cons, List.filterMap_cons, ih]
+
+theorem cmpBodies_foreign (attrs : List Attr) (w : CmpAttr) : cmpBodies (dropForeign attrs) w = cmpBodies attrs w := by
+  unfold cmpBodies dropForeign
+  induction attrs with
+  | nil => rfl
+  | cons a as ih => cases a <;> simp [List.filter_cons, List.filterMap_cons, ih]
+
+theorem debugBodies_foreign (attrs : List Attr) : debugBodies (dropForeign attrs) = debugBodies attrs := by
+  unfold debugBodies dropForeign
+  induction attrs with
+  | nil => rfl
+  | cons a as ih => cases a <;> simp [List.filter_cons, List.filterMap_cons, ih]
+
+theorem defaultBodies_foreign (attrs : List Attr) : defaultBodies (dropForeign attrs) = defaultBodies attrs := by
+  unfold defaultBodies dropForeign
+  induction attrs with
+  | nil => rfl
+  | cons a as ih => cases a <;> simp [List.filter_cons, List.filterMap_cons, ih]
+
+/-- the listed traits do not depend on foreign attributes -/
+theorem fromRoot_foreign (a : Option Args) (attrs : List Attr) :
+    Entry.fromRoot a (dropForeign attrs) = Entry.fromRoot a attrs := by
+  simp only [Entry.fromRoot, deriveExArgs_foreign]
+
+/-- the parsed helper attributes of a type, variant or field do not depend on foreign attributes -/
+theorem fromAttrs_foreign (attrs : List Attr) (t : Target) (k : Kinds) :
+    HAttrs.fromAttrs (dropForeign attrs) t k = HAttrs.fromAttrs attrs t k := by
+  simp only [HAttrs.fromAttrs, itemsPart, dfltPart, debugPart, CmpHs.fromAttrs, cmpPart, CmpH.fromAttrs, DebugH.fromAttrs,
+    DefaultH.fromAttrs, deriveExArgs_foreign, cmpBodies_foreign, debugBodies_foreign, defaultBodies_foreign]
+
 end DX
